@@ -1,37 +1,52 @@
 """C18 - Materialization is pure and deterministic across calls, histories and hash seeds.
 
-A case is a *history*: 2-3 data frames, a context of mutable objects (a knots list K, a levels list L) and up
-to 12 operations over four shared formulas: `center(x) + C(a)`, the structured
-`y ~ scale(z) + center(x):C(a) + I(center(x) * z)`, `center(`my col`) + scale(`my col`) + I(`my col` * x)`
-(a non-identifier column name back-quoted inside several stateful Python factors) and
-`bs(x, knots=K, extrapolation='clip') + C(a, levels=L) + poly(z, degree=2)` (transforms that take mutable objects
-from the caller's context); every operation gets the same context objects:
-  new     ModelSpec(formula=F, ...) / ModelSpec.from_spec(F, ...)        (un-materialised spec)
-  update  spec.update(ensure_full_rank= / na_action= / structure=None / formula=)
+A case is a *history*: 2-3 data frames (numeric columns x, z, y, `my col`; text columns a, b, c, d, possibly declared as
+pandas CATEGORICALS whose levels are listed in another order than the values suggest, as a subset -- other values become
+nulls -- or as a superset; a later frame may be an earlier one with only that declaration changed), a context of
+mutable objects (knots lists, a levels list, scores, custom contrast weights as a dict of lists and as a nested list, a
+centre) and up to 12 operations over 2-3 of 16 shared formula OBJECTS:
+stateful transforms (`center(x) + C(a)`, the structured `y ~ scale(z) + center(x):C(a) + I(center(x) * z)`), a
+back-quoted non-identifier column inside several Python factors, transforms that take mutable objects from the
+caller's context (`bs(x, knots=K) + C(a, levels=L) + poly(z, 2)`), ONE term interacting three or four categorical
+factors whose lower-order margins do not all precede it (`a:b:c`, `a + b + a:b:c`, `x + a:b:c`, `a:b:c:d`,
+`a + a:b:c + b:c:d`, `center(x):a:b + b:c:d - 1`: the only shapes in which `_simplify_scoped_terms` handles scoped
+terms of equal size), the built-in codings (`C(a, contr.treatment|helmert|poly|sum)`), patsy's `Q()` (reads the
+evaluation context) nested in other stateful calls, custom / scored contrasts and `cr()` taking argument objects from the
+context, `lag` (creates nulls) and `hashed` (own encoder).  Every operation gets the same context objects:
+  new     ModelSpec(formula=F, ...) / ModelSpec.from_spec(F, ...), materializer given as None / name / class / instance
+  update  spec.update(ensure_full_rank= / na_action= / structure=None / formula= / transform_state={}, encoder_state={})
   subset  spec.subset(terms)
-  build   model_matrix(F, data, ...) / F.get_model_matrix(data, ...)
+  build   model_matrix(F, data, ...) / F.get_model_matrix(data, ...) / materializer.get_model_matrix(F, ...)
   call    spec.get_model_matrix(data, **overrides) / model_matrix(spec | matrix, data, **overrides) /
-          ModelSpecs(p0=spec, p1=spec').get_model_matrix(data, **overrides) on specs obtained earlier
-Spec handles are numbered in the order in which the real code hands them out.
+          ModelSpecs(p0=spec, p1=spec').get_model_matrix(data, **overrides) / materializer.get_model_matrix(spec(s))
+          on specs obtained earlier (`materializer`: ONE materializer object per frame, reused by the whole history)
+  edit    the CALLER edits a formula object between the calls through the sequence protocol of SimpleFormula
+          (F.insert(i, t) / F.append(t) / F[i] = t / del F[i], and the collections.abc mixins pop / remove / extend /
+          += / clear -- sent to the model as the primitives they are built from; also on `spec.formula`; any index)
+Spec handles are numbered in the order in which the real code hands them out.  After every operation the derived
+attributes of the specs it named (column_names ... factor_contrasts, get_slice) are read on the real objects.
 
-Correspondence stream `c18` (real code vs `Model.Heap.trace`): after every operation the outcome
-(exception class, or kept rows and materialised terms per part) and the whole store are compared:
-for every spec handle its formula/configuration/structure terms, the identity classes of its
-`transform_state` / `encoder_state` dictionaries (Python `is` vs reference equality in the model) and
-their contents (fitted-state tokens, level codes).  The numeric parameters of the model (fitted state
-per call node and frame, null rows, failing factors, level codes) are computed by isolated fresh
-evaluations of the real transforms and forwarded in the request.  In addition every symbolic `Part`
-record the model produces (for the history and for the value semantics) must determine the real
-output: equal records with different real matrices are a disagreement.
+Correspondence stream `c18` (real code vs `Model.HeapX.xtrace`): after every operation the outcome (exception class, or
+kept rows and materialised terms per part) and the whole store are compared: for every spec handle its
+formula/configuration/structure terms, the identity classes of its `transform_state` / `encoder_state` dictionaries
+and the number of the formula object it holds (Python `is` vs reference equality in the model), the contents of the
+dictionaries (fitted-state tokens, level codes IN ORDER) and the contents of every formula object.  Rank reduction
+(which scoped terms / factors a term is encoded with, in which order) is COMPUTED by the model from the kinds of the
+factors and compared with the structure of fresh real builds.  The numeric parameters of the model (fitted state per
+call node and frame, null rows, failing factors, level codes, declared levels, factor kinds) come from isolated fresh
+evaluations of the real transforms.  Every symbolic `Part` record the model produces (history and value semantics)
+must determine the real output: equal records with different real matrices are a disagreement.
 
-Oracle (implementation only): (1) every call's output -- the matrices AND the keys/values of the
-transform_state / encoder_state of the specs that come with them -- equals the output of the same call
-on fresh objects (fresh formulas, frames and context objects, the spec re-derived through its own
-ancestry only); (2) frames (hash of values, dtypes, labels), the shared formulas' terms, the context
-objects (type and contents) and the state of numpy's global random stream are unchanged by every
-operation; (3) the replay output of previously obtained specs (on deep copies) is unchanged by every
-operation; (4) the canonical outputs of the whole history (values, column order, kept rows) are
-byte-identical in subprocesses with PYTHONHASHSEED in {0,1,2,3} (thorough: 16 seeds).
+Oracle (implementation only): (1) every call's output -- the matrices AND the keys/values of the transform_state /
+encoder_state of the specs that come with them -- equals the output of the same call on fresh objects (fresh formulas,
+frames, context objects and materializers; only the operations it depends on are replayed: the ancestry of the specs it
+names and the caller's edits of the formula objects involved); (2) frames (hash of values, dtypes, declared categories,
+labels), the context objects, numpy's global random stream and -- except by the caller's own edits -- every formula
+object are unchanged by every operation; (3) a DEEP snapshot of every previously obtained spec (formula, configuration,
+structure, transform_state / encoder_state with nested dicts, lists, arrays, contrast objects) is unchanged by every
+operation and by reading its derived attributes, and the replay output of previously obtained specs (on deep copies)
+is unchanged; (4) the canonical outputs of the whole history (values, column order, kept rows) are byte-identical in
+subprocesses with PYTHONHASHSEED in {0..5} (thorough: 16 seeds).
 """
 from __future__ import annotations
 
@@ -54,24 +69,57 @@ REQUIRED_THEOREMS = [
     "order_independent",
     "call_order_independent",
     "shared_prepare_not_history_independent",
+    "scoped_terms_refine_c03",
+    "scoped_terms_hash_seed_independent",
+    "scoped_terms_total",
+    "scopedOf_hash_seed_independent",
+    "call_hash_seed_independent",
+    "history_hash_seed_independent",
+    "hashed_recursion_is_seed_dependent",
+    "x_history_independent",
+    "x_call_is_pure",
+    "building_never_touches_formulas",
+    "x_inputs_unchanged",
+    "failed_operation_changes_nothing",
+    "fault_then_reuse",
+    "edit_reaches_exactly_the_aliases",
+    "x_alias_consistent",
+    "x_replay_stable",
+    "x_repeat_identical",
+    "unrelated_edit_does_not_interfere",
+    "x_history_hash_seed_independent",
+    "reorder_is_stable_sort",
+    "formula_objects_stay_in_degree_order",
+    "state_layout_as_modelled",
+    "aliasing_as_modelled",
+    "sequence_protocol_as_modelled",
 ]
 TRUSTED = [
     "modelled, not verified: CPython's hash function and dict/set internals (the model proves independence of the "
-    "iteration order of the factor set; the real seeds are observed in subprocesses), numpy summation order, float rounding",
+    "iteration order of EVERY plain set on the way to an observable -- the factor set, `spanned`, `factors_diff` -- the "
+    "real seeds are observed in subprocesses), numpy summation order, float rounding",
     "parameters of the model (checked per case by fresh isolated evaluations of the real transforms): fitted state of a "
     "stateful call node as a function of (node, data); null rows and failure of a factor as functions of (factor, data); "
-    "encoder state (levels) as a function of (factor, data, kept rows)",
-    "the data frames and formula objects are immutable in the model; that the real ones are not mutated is observed by "
-    "hashing them around every operation (oracle), not proved",
+    "encoder state (levels, in order) as a function of (factor, data, kept rows) -- for levels given in the formula or "
+    "declared by a categorical dtype: of (factor, data); kind and spans_intercept of an evaluated factor as a function of "
+    "(factor, data)",
+    "the data frames are immutable in the model; that the real ones are not mutated is observed by hashing them around "
+    "every operation (oracle), not proved.  Formula objects ARE in the model (only the caller's edits write to them: "
+    "theorem building_never_touches_formulas); the formula parser is not (C01): formulas and edit terms enter as term lists",
     "the materializer's factor_cache / encoded_cache / encoder_state_cache are per call in the model (the code resets them at "
-    "the start of every get_model_matrix, and every modelled entry point creates its own materializer anyway)",
+    "the start of every get_model_matrix; the entry point that reuses ONE materializer object per frame is exercised and "
+    "compared with fresh objects by the oracle)",
+    "Gen/SpecState.lean (regenerated from the live package): dataclass fields of ModelSpec, NAAction members, which "
+    "mutators SimpleFormula implements, four probed aliasing facts -- compared with the model's layout by decided theorems",
 ]
 ASSUMPTIONS = [
-    "inner state dictionaries (state[name], encoder_state[expr][1]) are written only while a key is absent "
-    "(scale/center/poly/bs/encode_contrasts), so they are immutable values once stored in a spec",
-    "stateful calls are not nested inside one another within a factor (the state a node fits depends on the data only)",
-    "rank reduction (which scoped factors a term is encoded with) is a function of (term, formula, ensure_full_rank, "
-    "data): it enters the model as the parameter `scopedOf`, tabulated per case from fresh builds (it is the subject of C03)",
+    "inner state dictionaries (state[name], encoder_state[expr][1]) are written only while a key is absent or re-written "
+    "with equal values (scale/center/poly/bs/encode_contrasts), so they are immutable values once stored in a spec "
+    "(observed: deep snapshots of every earlier spec around every operation)",
+    "a stateful call nested inside another one within a factor is stateless itself (`Q()`): the state a node fits depends "
+    "on the data only",
+    "a formula never lists the same term twice (the model identifies the scoped terms of a term by the term; the generator "
+    "never inserts a term that is already there)",
     "whether `_enforce_structure` raises FactorEncodingError is a function of the part's record (parameter `encodingFails`; "
     "the harness reports after how many completed parts an operation raised it and the engine tabulates the record)",
     "when several factors fail in step 1 for different reasons, WHICH exception class escapes (FactorEvaluationError vs "
@@ -82,12 +130,19 @@ ASSUMPTIONS = [
     "poly/bs away from degenerate data where a fresh fit gives NaN but a reused one does not)",
 ]
 RULE = (
-    "random histories (<= 12 ops) over 2-3 of 4 shared formulas (center/scale/C(), one structured, one with a back-quoted "
-    "non-identifier column in several stateful factors, one with bs/C/poly taking lists from the caller's context), 2-3 "
-    "frames (nulls in a/y, third frame may lack z), three fixed witnesses (D16, back-quote, context) first; interleaving new/update/subset/build/call via every entry point incl. joint ModelSpecs calls "
-    "and attribute overrides; malformed stream: formula swaps that keep a structure (KeyError), subsets of un-materialised "
-    "specs / unknown terms, inconsistent joint specs, na_action='raise' with nulls, missing columns; "
-    "non-trivial = some spec is materialised at least twice on different frames or reused after an update; distinct by canonical JSON"
+    "25 fixed witnesses first (D16, back-quote, context objects, caller's edits; per shape formula: build twice via two "
+    "entry points / reuse on other data / un-materialised spec; per coding formula x {levels reordered, subset, superset}: "
+    "fit, reuse on the same values declared categorical in another level order, reuse on the original again, the same "
+    "starting from an un-materialised spec), then random histories (<= 12 ops) over 2-3 of 16 shared formulas (every third "
+    "one forced to contain an equal-size-scoped-term shape, every sixth a coding formula), 2-3 frames (nulls in a/b/c/d/y, "
+    "third frame may lack z, text columns declared categorical with permuted / fewer / more levels, a later frame may be an "
+    "earlier one re-declared); interleaving new/update(+reset)/subset/build/call via every entry point incl. joint ModelSpecs "
+    "calls, one reused materializer object per frame, attribute overrides; 35% of the histories also contain the caller's "
+    "edits of formula objects; malformed stream (25%): formula swaps that keep a structure (KeyError), subsets of "
+    "un-materialised specs / unknown terms, inconsistent joint specs, na_action='raise' with nulls, missing columns, edit "
+    "indices out of range, a data column named like a reserved evaluator name; hash-seed batches over ALL cases with 6 "
+    "seeds (thorough: 16); non-trivial = some spec is materialised at least twice or reused after an update; distinct by "
+    "canonical JSON"
 )
 
 ROOT = Path(__file__).resolve().parent.parent.parent
@@ -99,11 +154,32 @@ FSTR = {
     "F3": "center(`my col`) + scale(`my col`) + I(`my col` * x)",
     # transforms that take mutable objects (lists) from the caller's context
     "F4": "bs(x, knots=K, extrapolation='clip') + C(a, levels=L) + poly(z, degree=2)",
+    # ONE term interacting three or more categorical factors while not all of its lower-order margins precede it
+    # (full-rank coding): only here does `_simplify_scoped_terms` see several scoped terms of EQUAL size, so only here
+    # can a hash-ordered container on the way to the column order show
+    "G1": "a:b:c",
+    "G2": "a + b + a:b:c",
+    "G3": "x + a:b:c",
+    "G4": "a:b:c:d",
+    "G5": "a + a:b:c + b:c:d",
+    "G6": "center(x):a:b + b:c:d - 1",
+    # the built-in codings (their encoder state is a nested dict with lists and a ContrastsState object)
+    "H1": "center(x) + C(a, contr.treatment) + C(b, contr.helmert)",
+    "H2": "C(a, contr.poly) + C(b, contr.sum):x",
+    "H3": "a + C(b, contr.sum) + a:C(b, contr.sum)",
+    # patsy's Q("name"): a stateful transform that reads the evaluation CONTEXT (`_context`), nested in others
+    "Q1": "scale(Q('my col')) + Q('x'):a + center(Q('my col') + x)",
+    # more argument objects taken from the caller's context: scores, custom contrast weights (dict of lists, nested
+    # list), spline knots, a centre; a transform that creates nulls (lag) and one with its own encoder (hashed)
+    "A1": "C(b, contr.poly(scores=S4), levels=L) + C(a, M4, levels=L) + cr(x, knots=K2) + C(a, contr.custom(M4x), levels=L):z",
+    "A2": "lag(x, 1) + hashed(a, levels=5) + scale(z, center=c0)",
 }
-SIMPLE = ["F1", "F2l", "F2r", "F3", "F4"]
+FAMILIES = [k for k in FSTR]
+SIMPLE = [m for f in FSTR for m in (["F2l", "F2r"] if f == "F2" else [f])]
+CATCOLS = ["a", "b", "c", "d"]
 CTX = {"K": [1.5, 3.5], "L": ["u", "v", "w", "z"]}
 LETTERS = ["u", "v", "w", "z"]
-MAX_PROBED = 8
+MAX_PROBED = 5
 
 
 # ----------------------------------------------------------------------------- real objects
@@ -116,8 +192,15 @@ def _frames(case):
     out = []
     for fr in case["frames"]:
         cols = {}
+        cats = fr.get("__cat__") or {}
+        ordered = fr.get("__ordered__") or []
         for k, v in fr.items():
-            if k == "a":
+            if k in ("__cat__", "__ordered__"):
+                continue
+            if k in cats:
+                # a pandas CATEGORICAL column with DECLARED levels (any order; values outside them become NaN)
+                cols[k] = pandas.Categorical(list(v), categories=list(cats[k]), ordered=k in ordered)
+            elif k in CATCOLS:
                 cols[k] = list(v)
             else:
                 cols[k] = [numpy.nan if t is None else float(t) for t in v]
@@ -125,22 +208,45 @@ def _frames(case):
     return out
 
 
-def _formulas():
+def _needed(case):
+    """the formula strings a history refers to"""
+    names = []
+    for op in case["ops"]:
+        for n in (op.get("f"), (op.get("u") or {}).get("formula"), (op.get("target") or {}).get("f")):
+            if n is not None:
+                n = "F2" if n in ("F2l", "F2r") else n
+                if n not in names:
+                    names.append(n)
+    return names
+
+
+def _formulas(case=None):
     from formulaic import Formula
 
-    f1 = Formula(FSTR["F1"])
-    f2 = Formula(FSTR["F2"])
-    return {"F1": f1, "F2": f2, "F2l": f2.lhs, "F2r": f2.rhs, "F3": Formula(FSTR["F3"]), "F4": Formula(FSTR["F4"])}
+    out = {k: Formula(FSTR[k]) for k in (FSTR if case is None else _needed(case))}
+    if "F2" in out:
+        out["F2l"], out["F2r"] = out["F2"].lhs, out["F2"].rhs
+    return out
 
 
 def _context(case):
     """fresh context objects (the caller's scope): mutable lists referred to by name from the formulas"""
     c = case.get("ctx") or CTX
-    return {"K": [float(t) for t in c["K"]], "L": [str(t) for t in c["L"]]}
+    return {
+        "K": [float(t) for t in c["K"]], "L": [str(t) for t in c["L"]],
+        # argument OBJECTS of transforms: scores of polynomial contrasts, custom contrast weights as a dict of lists
+        # and as a nested list, knots of a natural cubic spline, a centre
+        "S4": [1.0, 2.0, 4.0, 7.0],
+        "M4": {"c1": [1.0, 0.0, -1.0, 0.0], "c2": [0.0, 1.0, 0.0, -1.0]},
+        "M4x": [[1.0, 0.0], [0.0, 1.0], [-1.0, 0.0], [0.0, -1.0]],
+        "K2": [float(t) for t in c["K"]],
+        "c0": 2.0,
+    }
 
 
 def _ctx_repr(ctx):
-    return repr(sorted((k, type(v).__name__, repr(list(v))) for k, v in ctx.items()))
+    """type and DEEP contents of every object of the caller's context"""
+    return repr(sorted((k, type(v).__name__, json.dumps(_deep(v), sort_keys=True)) for k, v in ctx.items()))
 
 
 def _rng_state():
@@ -192,6 +298,49 @@ def _canon_state(spec):
     return dict(t=sorted((str(k), _tok(v)) for k, v in spec.transform_state.items()), e=sorted(e.items()))
 
 
+def _deep(v, depth=0):
+    """canonical DEEP value of a piece of recorded state: nested dicts, lists, tuples, arrays, enums, contrast objects"""
+    import enum
+
+    import numpy
+
+    if depth > 8:
+        return "<deep>"
+    if isinstance(v, dict):
+        return {"dict": sorted(([str(k), _deep(x, depth + 1)] for k, x in v.items()), key=lambda kv: kv[0])}
+    if isinstance(v, (list, tuple)):
+        return {type(v).__name__: [_deep(x, depth + 1) for x in v]}
+    if isinstance(v, enum.Enum):
+        return "enum:" + str(v.value)
+    if isinstance(v, numpy.ndarray):
+        if v.ndim == 0:
+            return {"array0": _deep(v.item(), depth + 1)}
+        return {"array": [_deep(x, depth + 1) for x in v.tolist()]}
+    if isinstance(v, (float, numpy.floating)):
+        return _hexf(v)
+    if v is None or isinstance(v, (bool, int, str)):
+        return v
+    if isinstance(v, numpy.generic):
+        return _deep(v.item(), depth + 1)
+    d = getattr(v, "__dict__", None)
+    if d is None and hasattr(v, "__dataclass_fields__"):
+        d = {k: getattr(v, k) for k in v.__dataclass_fields__}
+    if d is not None:
+        return {type(v).__name__: _deep(dict(d), depth + 1)}
+    return type(v).__name__ + ":" + repr(v)
+
+
+def _deep_spec(spec, formula=True):
+    """everything a spec has recorded, by value and in depth (formula, configuration, structure, both state dicts)"""
+    return _digest(dict(
+        formula=[[(f.expr, f.eval_method.value, f.kind.value) for f in t.factors] for t in spec.formula] if formula else None,
+        cfg=[bool(spec.ensure_full_rank), spec.na_action.value, spec.output, spec.materializer, spec.cluster_by.value],
+        structure=None if spec.structure is None else [
+            [str(s.term), [[(sf.factor.expr, bool(sf.reduced)) for sf in t.factors] + [_hexf(t.scale)] for t in s.scoped_terms],
+             list(s.columns)] for s in spec.structure],
+        t=_deep(spec.transform_state), e=_deep(spec.encoder_state)))
+
+
 def _parts_of(res):
     """list of ModelMatrix in part order"""
     from formulaic.utils.structured import Structured
@@ -216,16 +365,50 @@ def _tok(v):
     return "[" + ",".join(repr(float(t)) for t in a.ravel()) + "]"
 
 
+# terms a caller may put into a formula object through the sequence protocol (by printed form)
+POOL = ["x", "z", "a", "b", "x:z", "center(x)", "1", "a:b", "c", "scale(z)"]
+
+
+def _term(text):
+    """the Term object printed as `text` (the last term of the parsed string; `1` is the intercept itself)"""
+    from formulaic import Formula
+
+    return list(Formula(text))[-1]
+
+
+def _fnames(case):
+    """names of the formula OBJECTS of a history in creation order (a structured formula has one object per part)"""
+    return [m for n in _needed(case) for m in (["F2l", "F2r"] if n == "F2" else [n])]
+
+
 class World:
     """the real objects of one history"""
 
     def __init__(self, case):
         self.frames = _frames(case)
-        self.F = _formulas()
+        self.F = _formulas(case)
         self.ctx = _context(case)  # shared by every operation of the history, like variables of the calling scope
         self.H = []  # spec handles, in the order they were handed out
         self.M = []  # the matrix a handle came with (or None)
         self.origin = []  # how each handle was obtained: (op index, part index)
+        self.fnames = _fnames(case)
+        self.fobj = [self.F[n] for n in self.fnames]  # formula OBJECTS by creation order (identity matters)
+        self.mats = {}  # one persistent materializer object per frame (entry point `materializer.get_model_matrix`)
+
+    def fc(self, formula):
+        """number of a formula object (new ones are numbered when they are first seen)"""
+        for i, f in enumerate(self.fobj):
+            if f is formula:
+                return i
+        self.fobj.append(formula)
+        return len(self.fobj) - 1
+
+    def materializer(self, d):
+        from formulaic.materializers import FormulaMaterializer
+
+        if d not in self.mats:
+            self.mats[d] = FormulaMaterializer.for_data(self.frames[d])(self.frames[d], context=self.ctx)
+        return self.mats[d]
 
     # -- resolution of the symbolic references of a case against the current number of handles
     def resolve(self, op):
@@ -253,6 +436,37 @@ class World:
                 r["via"] = "mm"
         if k in ("build", "call"):
             r["d"] = op["d"] % len(self.frames)
+        if k == "edit":
+            if "h" in op["target"]:
+                if n == 0:
+                    return None
+                r["target"] = {"h": op["target"]["h"] % n}
+                formula = self.H[r["target"]["h"]].formula
+            else:
+                if op["target"]["f"] not in self.F:
+                    return None
+                formula = self.F[op["target"]["f"]]
+            e = dict(op["e"])
+            have = list(formula)
+            if e["k"] in ("insert", "append", "set", "extend", "iadd"):
+                # the model identifies a term of a formula by its factors: the generator never makes a formula list the
+                # same term twice (ASSUMPTIONS)
+                cand = [t for t in (POOL[e["t"] % len(POOL):] + POOL[: e["t"] % len(POOL)]) if _term(t) not in have]
+                if not cand or (e["k"] == "extend" and len(cand) < 2):
+                    return None
+                e["t"] = cand[0]
+                if e["k"] == "extend":
+                    e["t2"] = cand[1]
+            elif e["k"] == "remove":
+                if not have:
+                    return None
+                e["i"] = e["t"] % len(have)  # remove(term): the term that is at this position now
+                e["t"] = str(have[e["i"]])
+            elif e["k"] == "clear":
+                if not have:
+                    return None
+                e["n"] = len(have)
+            r["e"] = e
         return r
 
     def execute(self, op, i):
@@ -274,16 +488,52 @@ class World:
         try:
             if k == "new":
                 f = self.F[op["f"]]
+                extra = {}
+                if op.get("mat") == "name":
+                    extra["materializer"] = "pandas"
+                elif op.get("mat") == "class":
+                    from formulaic.materializers import PandasMaterializer
+
+                    extra["materializer"] = PandasMaterializer
+                elif op.get("mat") == "instance":
+                    extra["materializer"] = self.materializer(0)
                 if op.get("via") == "from_spec":
-                    s = ModelSpec.from_spec(f, ensure_full_rank=op["efr"], na_action=op["na"])
+                    s = ModelSpec.from_spec(f, ensure_full_rank=op["efr"], na_action=op["na"], **extra)
                 else:
-                    s = ModelSpec(formula=f, ensure_full_rank=op["efr"], na_action=op["na"])
+                    s = ModelSpec(formula=f, ensure_full_rank=op["efr"], na_action=op["na"], **extra)
                 self._publish([s], [None], i)
+                return {"parts": []}, None
+            if k == "edit":
+                tgt = op["target"]
+                formula = self.H[tgt["h"]].formula if "h" in tgt else self.F[tgt["f"]]
+                self.edited = self.fc(formula)
+                e = op["e"]
+                if e["k"] == "insert":
+                    formula.insert(e["i"], _term(e["t"]))
+                elif e["k"] == "append":
+                    formula.append(_term(e["t"]))
+                elif e["k"] == "set":
+                    formula[e["i"]] = _term(e["t"])
+                elif e["k"] == "del":
+                    del formula[e["i"]]
+                # the mixin methods of collections.abc.MutableSequence, built on the three primitives above
+                elif e["k"] == "pop":
+                    formula.pop() if e.get("i") is None else formula.pop(e["i"])
+                elif e["k"] == "remove":
+                    formula.remove(formula[e["i"]])
+                elif e["k"] == "extend":
+                    formula.extend([_term(e["t"]), _term(e["t2"])])
+                elif e["k"] == "iadd":
+                    formula += [_term(e["t"])]
+                else:
+                    formula.clear()
                 return {"parts": []}, None
             if k == "update":
                 kw = _kwargs(op["u"])
                 if "formula" in op["u"]:
                     kw["formula"] = self.F[op["u"]["formula"]]
+                if op["u"].get("reset"):
+                    kw["transform_state"], kw["encoder_state"] = {}, {}
                 s = self.H[op["h"]].update(**kw)
                 self._publish([s], [None], i)
                 return {"parts": []}, None
@@ -296,6 +546,8 @@ class World:
                 f = self.F[op["f"]]
                 if op.get("via") == "formula":
                     res = f.get_model_matrix(data, context=self.ctx, ensure_full_rank=op["efr"], na_action=op["na"])
+                elif op.get("via") == "materializer":
+                    res = self.materializer(op["d"]).get_model_matrix(f, ensure_full_rank=op["efr"], na_action=op["na"])
                 else:
                     res = model_matrix(f, data, context=self.ctx, ensure_full_rank=op["efr"], na_action=op["na"])
             else:
@@ -303,7 +555,11 @@ class World:
                 hs = [self.H[h] for h in op["hs"]]
                 via = op.get("via", "spec")
                 kw["context"] = self.ctx
-                if len(hs) == 1 and via == "spec":
+                if via == "materializer":
+                    kw.pop("context")
+                    joint = hs[0] if len(hs) == 1 else ModelSpecs(**{f"p{j}": s for j, s in enumerate(hs)})
+                    res = self.materializer(op["d"]).get_model_matrix(joint, **kw)
+                elif len(hs) == 1 and via == "spec":
                     res = hs[0].get_model_matrix(data, **kw)
                 elif len(hs) == 1 and via == "matrix":
                     res = model_matrix(self.M[op["hs"][0]], data, **kw)
@@ -358,7 +614,7 @@ class World:
             e = {}
             for k, v in s.encoder_state.items():
                 cats = v[1].get("categories") if isinstance(v[1], dict) else None
-                e[str(k)] = [LETTERS.index(c) for c in cats] if cats is not None else []
+                e[str(k)] = [LETTERS.index(c) for c in cats] if cats is not None and all(c in LETTERS for c in cats) else []
             out.append(
                 dict(
                     formula=_terms(s.formula),
@@ -367,6 +623,7 @@ class World:
                     struct=None if s.structure is None else _terms([t.term for t in s.structure]),
                     tc=tids.index(id(s.transform_state)),
                     ec=eids.index(id(s.encoder_state)),
+                    fc=self.fc(s.formula),
                     t={str(k): _tok(v) for k, v in s.transform_state.items()},
                     e=e,
                 )
@@ -393,13 +650,37 @@ def _frame_hash(df):
     h = hashlib.sha256()
     h.update(pandas.util.hash_pandas_object(df, index=True).values.tobytes())
     h.update(repr([(str(c), str(t)) for c, t in df.dtypes.items()]).encode())
+    h.update(repr([(str(c), list(df[c].cat.categories), bool(df[c].cat.ordered)) for c in df.columns
+                   if isinstance(df[c].dtype, pandas.CategoricalDtype)]).encode())
     h.update(repr(list(df.index)).encode())
     return h.hexdigest()[:16]
 
 
 def _formula_repr(F):
+    """F: dict name -> formula, or a list of formula objects"""
+    items = F.items() if isinstance(F, dict) else enumerate(F)
     return {k: repr([[(f.expr, f.eval_method.value, f.kind.value) for f in t.factors] for t in v])
-            for k, v in F.items() if k != "F2"}
+            for k, v in items if k != "F2"}
+
+
+INTROSPECT = ["column_names", "column_indices", "terms", "term_indices", "term_slices", "term_factors", "term_variables",
+              "factors", "factor_terms", "factor_variables", "factor_contrasts", "variables", "variable_terms",
+              "variable_indices", "variables_by_source", "required_variables"]
+
+
+def _introspect(spec):
+    """read every derived attribute of a REAL spec object (they are cached on the object): looking at a spec between two
+    calls must not change what the calls return (the fresh replays do not look)"""
+    for name in INTROSPECT:
+        try:
+            getattr(spec, name)
+        except Exception:
+            pass
+    for arg in (0, slice(0, 1), "Intercept"):
+        try:
+            spec.get_slice(arg)
+        except Exception:
+            pass
 
 
 def _probe(spec, frame, ctx):
@@ -418,6 +699,8 @@ def run_history(case, light=False):
     warnings.simplefilter("ignore")
     numpy.random.seed(180018)  # the global stream is an observable: no operation may consume it
     w = World(case)
+    fr0 = _formula_repr(w.F)
+    fh0 = None if light else [_frame_hash(f) for f in w.frames]
     rec = []
     probes = {}
     for i, op0 in enumerate(case["ops"]):
@@ -425,45 +708,66 @@ def run_history(case, light=False):
         if op is None:
             continue
         n_before = len(w.H)
+        is_edit = op["k"] == "edit"
         if not light:
-            fh = [_frame_hash(f) for f in w.frames]
-            fr = _formula_repr(w.F)
+            touched = [op["d"]] if "d" in op else []  # no other frame is handed to the operation
+            fh = [_frame_hash(w.frames[d]) for d in touched]
+            fr = _formula_repr(list(w.fobj))
             cx = _ctx_repr(w.ctx)
             rs = _rng_state()
+            deep = [_deep_spec(s_, formula=not is_edit) for s_ in w.H]
         out, canon = w.execute(op, len(rec))
         entry = dict(op=op, out=out, digest=None if canon is None else _digest(canon), mdigest=_mdigest(canon))
         if out.get("err") == "FactorEncodingError":
             entry["parts_done"] = w.parts_done
+        if is_edit:
+            entry["edited"] = w.edited
         if not light:
             bad = []
-            if fh != [_frame_hash(f) for f in w.frames]:
-                bad.append("an input data frame was mutated")
-            if fr != _formula_repr(w.F):
-                bad.append("a shared formula was mutated")
+            if fh != [_frame_hash(w.frames[d]) for d in touched]:
+                bad.append("the input data frame was mutated")
+            if not is_edit and fr != _formula_repr(w.fobj[: len(fr)]):
+                # (the caller's own edits of a formula object are operations of the history; nothing else may change one)
+                bad.append("a formula object was mutated")
             if cx != _ctx_repr(w.ctx):
                 bad.append(f"an object of the caller's context was mutated: {cx} -> {_ctx_repr(w.ctx)}")
             if rs != _rng_state():
                 bad.append("the operation consumed numpy's global random stream")
-            # replay behaviour of the specs obtained before this op, on a frame other than the op's
-            pf = (op.get("d", i) + 1) % len(w.frames)
-            idx = list(range(n_before))
-            if len(idx) > MAX_PROBED:
-                idx = idx[: MAX_PROBED // 2] + idx[-MAX_PROBED // 2:]
-            for h in idx:
+            for h, (b4, s_) in enumerate(zip(deep, w.H)):
+                if b4 != _deep_spec(s_, formula=not is_edit):
+                    bad.append(f"the recorded state of the previously obtained spec #{h} (formula, configuration, structure, "
+                               f"transform_state / encoder_state in depth) was changed by the operation")
+                    break
+            for h in ([op["h"]] if "h" in op else op.get("hs", [])) + list(range(n_before, len(w.H))):
+                if h < len(w.H):
+                    b4 = _deep_spec(w.H[h])
+                    _introspect(w.H[h])
+                    if b4 != _deep_spec(w.H[h]):
+                        bad.append(f"reading the derived attributes of spec #{h} changed its recorded state")
+            if is_edit:
+                probes.clear()  # specs holding the edited formula object legitimately behave differently from now on
+            # replay behaviour (on deep copies): the recorded state of EVERY earlier spec is compared in depth above; the
+            # replay output is observed for the specs the operation names and the oldest one, each always on the same
+            # frame (handle number modulo the number of frames), with a baseline taken at creation
+            named = [h for h in ([op["h"]] if "h" in op else op.get("hs", [])) if h < n_before]
+            idx = list(dict.fromkeys(named + list(range(n_before))[:1]))[:MAX_PROBED]
+            for h in idx + list(range(n_before, len(w.H))):
+                pf = h % len(w.frames)
                 p = _probe(w.H[h], w.frames[pf], w.ctx)
-                if (h, pf) in probes and probes[(h, pf)] != p:
-                    bad.append(f"replay of spec #{h} on frame {pf} changed ({probes[(h, pf)]} -> {p})")
-                probes[(h, pf)] = p
-            for h in range(n_before, len(w.H)):
-                probes[(h, pf)] = _probe(w.H[h], w.frames[pf], w.ctx)
+                if h in probes and probes[h] != p:
+                    bad.append(f"replay of spec #{h} on frame {pf} changed ({probes[h]} -> {p})")
+                probes[h] = p
             entry["bad"] = bad
             entry["specs"] = w.summary()
+            entry["forms"] = [_terms(f) for f in w.fobj]
         rec.append(entry)
     if rec and not light:
         # module-level parser state (DEFAULT_PARSER / DEFAULT_NESTED_PARSER): parsing the same strings again after the
-        # history must give the same terms as before it
-        if _formula_repr(_formulas()) != _formula_repr(w.F):
+        # history must give the same terms as at its start
+        if _formula_repr(_formulas(case)) != fr0:
             rec[-1]["bad"].append("re-parsing the formulas after the history gives different terms")
+        if fh0 != [_frame_hash(f) for f in w.frames]:
+            rec[-1]["bad"].append("a data frame is not what it was at the start of the history")
     return w, rec
 
 
@@ -471,50 +775,76 @@ def run_history(case, light=False):
 
 
 def fresh_output(case, rec, i):
-    """the output of executed op i on fresh objects: fresh formulas and frames; the specs it names are
-    re-derived through their own ancestry only"""
-    w = World(case)
+    """the output of executed op i on fresh objects (formulas, frames, context, materializers): only the operations it
+    depends on are replayed, in their original order -- the ancestry of the specs it names, and the caller's edits of
+    the formula objects that ancestry touches"""
     ops = [r["op"] for r in rec]
-    # origin of handle h in the original run
-    origin = []
+    # origin of handle h in the original run, and the formula object each handle holds
+    origin, hfc = [], []
     for j, r in enumerate(rec):
         k = r["op"]["k"]
-        if "err" in r["out"]:
+        if "err" in r["out"] or k == "edit":
             continue
         n = len(r["out"]["parts"]) if k in ("build", "call") else 1
         origin += [(j, p) for p in range(n)]
-    memo = {}  # op index -> list of fresh specs/matrices it handed out
+    last = [r for r in rec if "specs" in r]
+    hfc = [sp["fc"] for sp in last[-1]["specs"]] if last else []
+    names = _fnames(case)
 
-    def handed(j):
-        if j not in memo:
-            memo[j] = run(j)[2]
-        return memo[j]
-
-    def spec_of(h):
-        j, p = origin[h]
-        return handed(j)[p]
-
-    def run(j):
-        op = dict(ops[j])
-        fresh = World.__new__(World)
-        fresh.frames, fresh.F, fresh.ctx, fresh.H, fresh.M, fresh.origin = w.frames, w.F, w.ctx, [], [], []
+    def handles_of(op):
         if op["k"] in ("update", "subset"):
-            s, m = spec_of(op["h"])
-            fresh.H, fresh.M = [s], [m]
-            op["h"] = 0
-        elif op["k"] == "call":
-            pairs = [spec_of(h) for h in op["hs"]]
-            uniq = []
-            for pr in pairs:
-                if not any(pr[0] is q[0] for q in uniq):
-                    uniq.append(pr)
-            fresh.H, fresh.M = [q[0] for q in uniq], [q[1] for q in uniq]
-            op["hs"] = [next(t for t, q in enumerate(uniq) if q[0] is pr[0]) for pr in pairs]
-        n0 = len(fresh.H)
-        out, canon = fresh.execute(op, j)
-        return out, canon, list(zip(fresh.H[n0:], fresh.M[n0:]))
+            return [op["h"]]
+        if op["k"] == "call":
+            return list(op["hs"])
+        if op["k"] == "edit" and "h" in op["target"]:
+            return [op["target"]["h"]]
+        return []
 
-    out, canon, _ = run(i)
+    def forms_of(j):
+        """formula objects operation j reads, writes or hands on"""
+        op = ops[j]
+        fs = [hfc[h] for h in handles_of(op) if h < len(hfc)]
+        fs += [hfc[h] for h, (jj, _) in enumerate(origin) if jj == j and h < len(hfc)]
+        for n in (op.get("f"), (op.get("u") or {}).get("formula"), (op.get("target") or {}).get("f")):
+            for m in (["F2l", "F2r"] if n == "F2" else [n]):
+                if m in names:
+                    fs.append(names.index(m))
+        if op["k"] == "edit":
+            fs.append(rec[j]["edited"])
+        return fs
+
+    need, todo = set(), [i]
+    while todo:
+        j = todo.pop()
+        if j in need:
+            continue
+        need.add(j)
+        for h in handles_of(ops[j]):
+            todo.append(origin[h][0])
+        touched = {f for t in need for f in forms_of(t)}
+        for t in range(max(need)):
+            if t not in need and ops[t]["k"] == "edit" and rec[t]["edited"] in touched:
+                todo.append(t)
+    w = World(case)
+    hmap = {}  # handle of the original run -> handle of the fresh run
+    res = None
+    for j in sorted(need):
+        if j > i:
+            continue
+        op = dict(ops[j])
+        if op["k"] in ("update", "subset"):
+            op["h"] = hmap[op["h"]]
+        elif op["k"] == "call":
+            op["hs"] = [hmap[h] for h in op["hs"]]
+        elif op["k"] == "edit" and "h" in op["target"]:
+            op["target"] = {"h": hmap[op["target"]["h"]]}
+        n0 = len(w.H)
+        res = w.execute(op, j)
+        mine = [h for h, (jj, _) in enumerate(origin) if jj == j]
+        for t, h in enumerate(mine):
+            if n0 + t < len(w.H):
+                hmap[h] = n0 + t
+    out, canon = res
     return (None, None) if canon is None else (_digest(canon), _mdigest(canon))
 
 
@@ -524,7 +854,7 @@ def fresh_output(case, rec, i):
 def _used_formulas(case):
     names = []
     for op in case["ops"]:
-        for n in (op.get("f"), (op.get("u") or {}).get("formula")):
+        for n in (op.get("f"), (op.get("u") or {}).get("formula"), (op.get("target") or {}).get("f")):
             for m in (["F2l", "F2r"] if n == "F2" else [n]):
                 if m is not None and m not in names:
                     names.append(m)
@@ -533,6 +863,7 @@ def _used_formulas(case):
 
 def model_params(case, handles=()):
     """fresh isolated evaluations of the real transforms: the numeric parameters of the model"""
+    import pandas
     from formulaic import ModelSpec, model_matrix
     from formulaic.transforms import TRANSFORMS
     from formulaic.utils.layered_mapping import LayeredMapping
@@ -540,7 +871,7 @@ def model_params(case, handles=()):
     from formulaic.utils.stateful_transforms import stateful_eval
 
     warnings.simplefilter("ignore")
-    F = _formulas()
+    F = _formulas(case)
     used = _used_formulas(case)
     factors, method = [], {}
     for k in used:
@@ -549,13 +880,23 @@ def model_params(case, handles=()):
                 if fa.eval_method.value != "literal" and fa.expr not in factors:
                     factors.append(fa.expr)
                     method[fa.expr] = fa.eval_method.value
+    if any(op["k"] == "edit" for op in case["ops"]):
+        # terms the caller may put into a formula object
+        for text in POOL:
+            for fa in _term(text).factors:
+                if fa.eval_method.value != "literal" and fa.expr not in factors:
+                    factors.append(fa.expr)
+                    method[fa.expr] = fa.eval_method.value
     frames = _frames(case)
     nodes = {f: [] for f in factors}
-    fit, fails, nulls, levels, fixedenc = {}, {f: {} for f in factors}, {f: {} for f in factors}, {}, {}
+    fit, fails, nulls, levels, fixedenc, kinds = {}, {f: {} for f in factors}, {f: {} for f in factors}, {}, {}, {}
     for d, df in enumerate(frames):
         for f in factors:
             st = {}
-            env = LayeredMapping({c: df[c].copy() for c in df.columns}, _context(case), TRANSFORMS)
+            # the evaluation environment as a materializer builds it (named layers: `Q()` reads `_context.data`)
+            env = LayeredMapping(LayeredMapping({c: df[c].copy() for c in df.columns}, name="data"),
+                                 LayeredMapping(_context(case), name="context"),
+                                 LayeredMapping(TRANSFORMS, name="transforms"))
             try:
                 val = env[f] if method[f] == "lookup" else stateful_eval(f, env, None, st, None)
                 bad = False
@@ -572,23 +913,39 @@ def model_params(case, handles=()):
                 continue
             nulls[f][str(d)] = sorted(int(t) for t in find_nulls(val))
             meta = getattr(val, "__formulaic_metadata__", None)
-            if meta is not None and meta.kind.value == "categorical":
-                raw = getattr(val, "__wrapped__", val)
-                levels.setdefault(f, {})[str(d)] = [
-                    None if (t is None or t != t) else LETTERS.index(t) for t in list(raw)
-                ]
-                if meta.encoder is not None and f not in fixedenc:
-                    # levels that do not come from the data (C(a, levels=L)): still there when every row is dropped
+            raw = getattr(val, "__wrapped__", val)
+            # a looked-up column carries no metadata: the materializer decides by dtype (`_is_categorical`)
+            textual = meta is None and isinstance(raw, pandas.Series) and (
+                raw.dtype == object or isinstance(raw.dtype, pandas.CategoricalDtype)
+                or pandas.api.types.is_string_dtype(raw.dtype))
+            kinds.setdefault(f, {})[str(d)] = (
+                [meta.kind.value, bool(meta.spans_intercept)] if meta is not None and meta.kind.value != "unknown"
+                else ["categorical", True] if textual else ["numerical", False])
+            if textual or (meta is not None and meta.kind.value == "categorical"):
+                vals = list(raw) if hasattr(raw, "__iter__") else []
+                if all(t is None or t != t or t in LETTERS for t in vals):  # (`hashed` has its own integer codes)
+                    levels.setdefault(f, {})[str(d)] = [
+                        None if (t is None or t != t) else LETTERS.index(t) for t in vals
+                    ]
+                # levels that do not come from the VALUES of the kept rows: given in the formula (C(a, levels=L)) or
+                # declared by a pandas categorical dtype (any order, possibly unobserved levels); they are still
+                # there when every row is dropped
+                if meta is not None and meta.encoder is not None:
                     try:
                         est = {}
                         meta.encoder(val, reduced_rank=False, drop_rows=list(range(len(df))), encoder_state=est,
                                      model_spec=ModelSpec(formula=[], output="pandas"))
-                        if est.get("categories"):
-                            fixedenc[f] = [LETTERS.index(c) for c in est["categories"]]
+                        if est.get("categories") and all(c in LETTERS for c in est["categories"]):
+                            fixedenc.setdefault(f, {})[str(d)] = [LETTERS.index(c) for c in est["categories"]]
                     except Exception:
                         pass
-    # rank reduction as a parameter: the scoped factors of every term of every formula that a spec of the history
-    # carries (the shared formulas, and restrictions of them made by subset()), per frame
+                elif isinstance(getattr(raw, "dtype", None), pandas.CategoricalDtype):
+                    fixedenc.setdefault(f, {})[str(d)] = [LETTERS.index(c) for c in raw.dtype.categories]
+    # rank reduction is computed by the MODEL (from `kinds`); what the real code does is recorded here for comparison:
+    # the scoped terms of every term of every formula that a spec of the history carries (the shared formulas, and
+    # restrictions of them made by subset()), per frame and ensure_full_rank setting
+    from fractions import Fraction
+
     F = dict(F)
     seen = {json.dumps(_terms(F[k])) for k in used}
     for s_ in handles:
@@ -598,7 +955,10 @@ def model_params(case, handles=()):
             F[key] = s_.formula
             used = used + [key]
     scoped = []
+    krow = lambda d: {f: v.get(str(d)) for f, v in kinds.items()}
     for d, df in enumerate(frames):
+        if d > 0 and krow(d) == krow(0):
+            continue  # rank reduction looks at the kinds only: nothing new to compare on this frame
         for k in used:
             for efr in (True, False):
                 st = None
@@ -609,13 +969,13 @@ def model_params(case, handles=()):
                         break
                     except Exception:
                         continue
-                for s in st or []:
+                if st is not None:
                     scoped.append(dict(
-                        term=_terms([s.term])[0], origin=_terms(F[k]), efr=efr, d=d,
-                        factors=[[sf.factor.expr, bool(sf.reduced)] for t in s.scoped_terms for sf in t.factors],
-                    ))
+                        origin=_terms(F[k]), efr=efr, d=d,
+                        terms=[[dict(factors=[[sf.factor.expr, bool(sf.reduced)] for sf in t.factors],
+                                     scale=str(Fraction(t.scale))) for t in s.scoped_terms] for s in st]))
     return dict(
-        nodes=nodes, fit=fit, fails=fails, nulls=nulls, levels=levels, fixedenc=fixedenc, scoped=scoped,
+        nodes=nodes, fit=fit, fails=fails, nulls=nulls, levels=levels, fixedenc=fixedenc, kinds=kinds, scoped=scoped,
         nrows={str(d): len(df) for d, df in enumerate(frames)},
     )
 
@@ -643,6 +1003,7 @@ def _start_batches(cases, seeds):
         p = subprocess.Popen(
             [sys.executable, "-W", "ignore", "-m", "harness.props.c18", "--batch", str(tmp)],
             cwd=str(ROOT), env=env, stdout=subprocess.PIPE, stderr=subprocess.PIPE, text=True,
+            preexec_fn=lambda: os.nice(10),  # the per-case time cap applies to the main process: it goes first
         )
         procs.append((s, p))
     _PENDING.append((tmp, [_key(c) for c in cases], procs))
@@ -693,7 +1054,7 @@ def _batch_main(path):
 # ----------------------------------------------------------------------------- generator
 
 
-def _gen_frame(rng, drop_z):
+def _gen_frame(rng, drop_z, reserved=False):
     n = rng.randint(4, 6)
     while True:
         x = [rng.randint(-4, 9) for _ in range(n)]
@@ -709,9 +1070,46 @@ def _gen_frame(rng, drop_z):
     if len(set(q)) == 1:
         q[0] += 1
     fr = {"x": x, "z": z, "a": a, "y": y, "my col": q}
+    for col in ("b", "c", "d"):
+        pool = rng.sample(LETTERS, rng.choice([2, 2, 3]))
+        fr[col] = [None if rng.random() < 0.04 else rng.choice(pool) for _ in range(n)]
+        if all(t is None for t in fr[col]):
+            fr[col][0] = pool[0]
     if drop_z:
         del fr["z"]
+    if reserved:
+        # a data column named like one of the evaluator's reserved names: every Python factor fails on this frame
+        fr["__FORMULAIC_STATE__"] = list(range(n))
     return fr
+
+
+def _recast(rng, fr):
+    """declare some of the text columns as pandas categoricals: the observed levels in another order, a subset of them
+    (the other values become nulls), or a superset"""
+    cat = {}
+    for col in CATCOLS:
+        if rng.random() < 0.5:
+            continue
+        seen = sorted({t for t in fr[col] if t is not None})
+        r = rng.random()
+        if r < 0.5:
+            lv = list(seen)
+            rng.shuffle(lv)
+            if lv == seen and len(lv) > 1:
+                lv.reverse()
+        elif r < 0.7 and len(seen) > 1:
+            lv = rng.sample(seen, len(seen) - 1)
+        else:
+            lv = seen + [t for t in LETTERS if t not in seen][: rng.randint(1, 2)]
+            rng.shuffle(lv)
+        cat[col] = lv
+    out = dict(fr)
+    if cat:
+        out["__cat__"] = cat
+        ordered = [col for col in cat if rng.random() < 0.3]
+        if ordered:
+            out["__ordered__"] = ordered
+    return out
 
 
 def _gen_cfg(rng, malformed):
@@ -740,24 +1138,52 @@ def _gen_upd(rng, malformed, simple=SIMPLE):
     else:
         u["efr"] = rng.random() < 0.5
         u["clear"] = True
+    if rng.random() < 0.15:
+        u["reset"] = True  # update(transform_state={}, encoder_state={}): the copy forgets what was fitted
+        if rng.random() < 0.7:
+            u["clear"] = True
     return u
 
 
-def _gen_ops(rng, malformed, nmax):
+def _gen_edit(rng, malformed, simple):
+    """the caller edits a formula object through the sequence protocol"""
+    target = {"h": rng.randint(0, 40)} if rng.random() < 0.3 else {"f": rng.choice(simple)}
+    r = rng.random()
+    rng_i = (lambda: rng.randint(-9, 9)) if malformed else (lambda: rng.randint(-3, 3))
+    if r < 0.3:
+        e = dict(k="insert", i=rng_i(), t=rng.randint(0, 20))
+    elif r < 0.5:
+        e = dict(k="append", t=rng.randint(0, 20))
+    elif r < 0.65:
+        e = dict(k="set", i=rng_i(), t=rng.randint(0, 20))
+    elif r < 0.8:
+        e = dict(k="del", i=rng_i())
+    else:  # the collections.abc mixins
+        e = rng.choice([dict(k="pop", i=None), dict(k="pop", i=rng_i()), dict(k="remove", t=rng.randint(0, 20)),
+                        dict(k="extend", t=rng.randint(0, 20)), dict(k="iadd", t=rng.randint(0, 20)), dict(k="clear")])
+    return dict(k="edit", target=target, e=e)
+
+
+def _gen_ops(rng, malformed, nmax, fams=None):
     ops = []
-    # each history works with 2-3 of the four formulas
-    fams = rng.sample(["F1", "F2", "F3", "F4"], rng.choice([2, 2, 3]))
+    # each history works with 2-3 of the formulas
+    fams = fams or rng.sample(FAMILIES, rng.choice([2, 2, 3]))
     simple = [m for f in fams for m in (["F2l", "F2r"] if f == "F2" else [f])]
     buildable = [m for f in fams for m in (["F2", "F2r"] if f == "F2" else [f])]
     n = rng.randint(3, nmax)
+    edits = rng.random() < 0.35  # histories in which the caller also edits formula objects between the calls
     for i in range(n):
         r = rng.random()
         if i == 0:
             r = rng.choice([0.05, 0.2])
+        if edits and i > 0 and rng.random() < 0.22:
+            ops.append(_gen_edit(rng, malformed, simple))
+            continue
         if r < 0.15:
-            ops.append(dict(k="new", f=rng.choice(simple), via=rng.choice(["ctor", "from_spec"]), **_gen_cfg(rng, malformed)))
+            ops.append(dict(k="new", f=rng.choice(simple), via=rng.choice(["ctor", "from_spec"]),
+                            mat=rng.choice([None, None, "name", "class", "instance"]), **_gen_cfg(rng, malformed)))
         elif r < 0.33:
-            ops.append(dict(k="build", f=rng.choice(buildable), via=rng.choice(["mm", "formula"]),
+            ops.append(dict(k="build", f=rng.choice(buildable), via=rng.choice(["mm", "formula", "materializer"]),
                             d=rng.randint(0, 5), **_gen_cfg(rng, malformed)))
         elif r < 0.73:
             k = rng.choice([1, 1, 1, 1, 2, 2, 3])
@@ -771,7 +1197,8 @@ def _gen_ops(rng, malformed, nmax):
                     u["efr"] = rng.random() < 0.5
                 else:
                     u["na"] = rng.choice(["drop", "ignore", "raise"] if malformed else ["drop", "ignore"])
-            ops.append(dict(k="call", hs=hs, via=rng.choice(["spec", "spec", "mm", "matrix"]), u=u, d=rng.randint(0, 5)))
+            ops.append(dict(k="call", hs=hs, via=rng.choice(["spec", "spec", "mm", "matrix", "materializer"]), u=u,
+                            d=rng.randint(0, 5)))
         elif r < 0.88:
             ops.append(dict(k="update", h=rng.randint(0, 40), u=_gen_upd(rng, malformed, simple)))
         else:
@@ -782,12 +1209,20 @@ def _gen_ops(rng, malformed, nmax):
     return ops
 
 
-def _gen_case(rng, seeds, nmax=12):
+def _gen_case(rng, seeds, nmax=12, fams=None):
     malformed = rng.random() < 0.25
     nf = rng.choice([2, 3, 3])
-    frames = [_gen_frame(rng, drop_z=(j == 2 and rng.random() < 0.5)) for j in range(nf)]
+    frames = [_gen_frame(rng, drop_z=(j == 2 and rng.random() < 0.5), reserved=(malformed and j > 0 and rng.random() < 0.15))
+              for j in range(nf)]
+    for j in range(nf):
+        r = rng.random()
+        if j > 0 and r < 0.3:
+            # the SAME values as an earlier frame, with text columns re-declared as categoricals in another level order
+            frames[j] = _recast(rng, {k: v for k, v in frames[rng.randrange(j)].items() if k not in ("__cat__", "__ordered__")})
+        elif r < 0.5:
+            frames[j] = _recast(rng, frames[j])
     ctx = dict(K=sorted(rng.sample([0.5, 1.5, 2.5, 3.5, 4.5], 2)), L=list(LETTERS))
-    return dict(frames=frames, ctx=ctx, ops=_gen_ops(rng, malformed, nmax), seeds=seeds)
+    return dict(frames=frames, ctx=ctx, ops=_gen_ops(rng, malformed, nmax, fams), seeds=seeds)
 
 
 D16_WITNESS = dict(
@@ -830,12 +1265,111 @@ CONTEXT_WITNESS = dict(
 )
 
 
+_TXT = dict(a=["u", "v", "w", "u", "w", "v"], b=["v", "v", "u", "u", "w", "w"], c=["u", "v", "u", "v", "u", "v"],
+            d=["w", "u", "u", "w", "w", "u"])
+_GFRAME = dict({"x": [-2, 6, 1, 3, 4, 8], "z": [1, 2, 4, 7, 9, 3], "y": [1, 2, 3, 4, 5, 6], "my col": [1, 2, 4, 9, 11, 5]}, **_TXT)
+_GFRAME2 = dict({"x": [-1, 8, 2, 5, 0, 7], "z": [2, 3, 5, 9, 1, 4], "y": [4, 3, 2, 1, 0, 5], "my col": [10, 20, 40, 45, 3, 8]},
+                a=["w", "v", "u", "u", "v", "w"], b=["u", "w", "v", "u", "w", "v"], c=["v", "v", "u", "u", "v", "u"],
+                d=["u", "w", "u", "w", "u", "w"])
+
+
+def _shape_witness(f):
+    """one term interacting >= 3 categorical factors: build twice (both entry points), reuse on other data, reuse again"""
+    return dict(
+        frames=[_GFRAME, _GFRAME2], ctx=CTX,
+        ops=[
+            dict(k="build", f=f, via="mm", d=0, efr=True, na="drop"),
+            dict(k="build", f=f, via="formula", d=1, efr=True, na="drop"),
+            dict(k="call", hs=[0], via="spec", u=None, d=1),
+            dict(k="call", hs=[1], via="mm", u=None, d=0),
+            dict(k="new", f=f, via="ctor", efr=True, na="drop"),
+            dict(k="call", hs=[4], via="spec", u=None, d=0),
+        ],
+    )
+
+
+def _order_witness(f, how):
+    """(1) fit a spec with categorical factors, (2) reuse it on the same values declared as pandas categoricals listing the
+    levels in another order / a subset / a superset, (3) reuse it on the original data again; then the same starting from
+    an un-materialised spec fitted on the categorical frame first"""
+    lv = {"reorder": dict(a=["w", "u", "v"], b=["w", "v", "u"]),
+          "subset": dict(a=["w", "u"], b=["v", "u"]),
+          "superset": dict(a=["z", "w", "v", "u"], b=["u", "z", "v", "w"])}[how]
+    return dict(
+        frames=[_GFRAME, dict(_GFRAME, __cat__=lv), _GFRAME2], ctx=CTX,
+        ops=[
+            dict(k="build", f=f, via="mm", d=0, efr=True, na="drop"),
+            dict(k="call", hs=[0], via="spec", u=None, d=1),
+            dict(k="call", hs=[0], via="spec", u=None, d=0),
+            dict(k="call", hs=[1], via="mm", u=None, d=2),
+            dict(k="call", hs=[0], via="matrix", u=None, d=0),
+            dict(k="new", f=f, via="ctor", efr=True, na="drop"),
+            dict(k="call", hs=[5], via="spec", u=None, d=1),
+            dict(k="call", hs=[5], via="spec", u=None, d=0),
+            dict(k="call", hs=[6], via="spec", u=None, d=0),
+            dict(k="call", hs=[6], via="spec", u=None, d=1),
+        ],
+    )
+
+
+# the caller edits a formula object between the calls: specs that hold it see the edit, their recorded state does not
+EDIT_WITNESS = dict(
+    frames=[_GFRAME, _GFRAME2], ctx=CTX,
+    ops=[
+        dict(k="build", f="F1", via="mm", d=0, efr=True, na="drop"),
+        dict(k="new", f="F1", via="ctor", efr=True, na="drop"),
+        dict(k="edit", target={"f": "F1"}, e=dict(k="append", t=1)),
+        dict(k="call", hs=[0], via="spec", u=None, d=1),
+        dict(k="call", hs=[1], via="spec", u=None, d=0),
+        dict(k="edit", target={"f": "F1"}, e=dict(k="del", i=0)),
+        dict(k="call", hs=[1], via="materializer", u=None, d=1),
+        dict(k="build", f="F1", via="materializer", d=0, efr=True, na="drop"),
+        dict(k="edit", target={"h": 0}, e=dict(k="set", i=1, t=3)),
+        dict(k="call", hs=[0], via="mm", u=None, d=0),
+        dict(k="update", h=0, u=dict(reset=True, clear=True)),
+        dict(k="call", hs=[6], via="spec", u=None, d=1),
+        dict(k="edit", target={"f": "F1"}, e=dict(k="insert", i=-1, t=4)),
+        dict(k="edit", target={"f": "F1"}, e=dict(k="del", i=7)),
+        dict(k="subset", h=2, pick=[1, 0]),
+        dict(k="edit", target={"h": 7}, e=dict(k="append", t=0)),
+        dict(k="call", hs=[7], via="spec", u=None, d=0),
+        dict(k="edit", target={"f": "F1"}, e=dict(k="extend", t=2)),
+        dict(k="edit", target={"f": "F1"}, e=dict(k="pop", i=None)),
+        dict(k="edit", target={"f": "F1"}, e=dict(k="remove", t=1)),
+        dict(k="call", hs=[1], via="spec", u=None, d=0),
+        dict(k="edit", target={"f": "F1"}, e=dict(k="clear")),
+        dict(k="edit", target={"f": "F1"}, e=dict(k="pop", i=None)),
+        dict(k="edit", target={"f": "F1"}, e=dict(k="iadd", t=5)),
+        dict(k="call", hs=[1], via="mm", u=None, d=1),
+    ],
+)
+
+SHAPE_FORMULAS = ["G1", "G2", "G3", "G4", "G5", "G6"]
+ORDER_FORMULAS = ["H1", "H2", "H3", "F1", "G2"]
+QUICK_SEEDS = [0, 1, 2, 3, 4, 5]
+
+
+def _fixed_cases(seeds):
+    out = [dict(D16_WITNESS, seeds=seeds), dict(BACKQUOTE_WITNESS, seeds=seeds), dict(CONTEXT_WITNESS, seeds=seeds),
+           dict(EDIT_WITNESS, seeds=seeds)]
+    out += [dict(_shape_witness(f), seeds=seeds) for f in SHAPE_FORMULAS]
+    out += [dict(_order_witness(f, how), seeds=seeds) for f in ORDER_FORMULAS for how in ("reorder", "subset", "superset")]
+    return out
+
+
 def cases(rng, tier):
-    n = {"quick": 110, "thorough": 700, "search": 25}[tier]
-    seeds = {"quick": [0, 1, 2, 3], "thorough": list(range(16)), "search": []}[tier]
-    out = [dict(D16_WITNESS, seeds=seeds), dict(BACKQUOTE_WITNESS, seeds=seeds), dict(CONTEXT_WITNESS, seeds=seeds)]
-    for _ in range(n):
-        out.append(_gen_case(rng, seeds))
+    n = {"quick": 90, "thorough": 700, "search": 25}[tier]
+    seeds = {"quick": QUICK_SEEDS, "thorough": list(range(16)), "search": []}[tier]
+    out = _fixed_cases(seeds)
+    for i in range(n):
+        # every third history is forced to contain one of the equal-size-scoped-term shapes
+        fams = None
+        if i % 3 == 0:
+            fams = [rng.choice(SHAPE_FORMULAS), rng.choice(FAMILIES)]
+            fams = list(dict.fromkeys(fams))
+        elif i % 3 == 1 and rng.random() < 0.5:
+            fams = list(dict.fromkeys([rng.choice(["H1", "H2", "H3"]), rng.choice(FAMILIES)]))
+        out.append(_gen_case(rng, seeds, fams=fams))
     if seeds:
         _start_batches(out, seeds)
     return out
@@ -846,7 +1380,7 @@ def cases(rng, tier):
 
 def describe(c):
     ks = [o["k"] for o in c["ops"]]
-    return f"ops={len(ks)},calls={ks.count('call') + ks.count('build')},frames={len(c['frames'])}"
+    return f"ops={len(ks)},calls={ks.count('call') + ks.count('build')},edits={ks.count('edit')},frames={len(c['frames'])}"
 
 
 def nontrivial(c):
@@ -861,41 +1395,79 @@ def impl(c):
     return dict(ops=rec, params=model_params(c, w.H))
 
 
-def _model_op(op, F):
+def _pick_terms(text):
+    """the term a picked string denotes (non-literal factor expressions in written order)"""
+    try:
+        return _terms([_term(text)])[0]
+    except Exception:
+        return [text]
+
+
+def _model_op(op, fid):
+    """fid: name of a formula object -> its number (creation order)"""
     k = op["k"]
     if k == "new":
-        return dict(op="new", f=_terms(F[op["f"]]), efr=op["efr"], na=op["na"])
+        return dict(op="new", fid=fid[op["f"]], efr=op["efr"], na=op["na"])
     if k == "update":
-        u = {x: op["u"][x] for x in ("efr", "na", "clear") if x in op["u"]}
+        u = {x: op["u"][x] for x in ("efr", "na", "clear", "reset") if x in op["u"]}
         if "formula" in op["u"]:
-            u["formula"] = _terms(F[op["u"]["formula"]])
+            u["formula"] = fid[op["u"]["formula"]]
         return dict(op="update", h=op["h"], u=u)
     if k == "subset":
-        from formulaic.formula import SimpleFormula
-
-        try:
-            terms = _terms(SimpleFormula.from_spec(op["terms"]))
-        except Exception:
-            terms = [[t] for t in op["terms"]]
-        return dict(op="subset", h=op["h"], terms=terms)
+        # the picked terms in the order given: the MODEL re-sorts them by degree as SimpleFormula.from_spec does
+        return dict(op="subset", h=op["h"], picks=[_pick_terms(t) for t in op["terms"]])
     if k == "build":
-        f = F[op["f"]]
-        fs = [_terms(F["F2l"]), _terms(F["F2r"])] if op["f"] == "F2" else [_terms(f)]
-        return dict(op="build", fs=fs, efr=op["efr"], na=op["na"], d=op["d"])
+        fids = [fid["F2l"], fid["F2r"]] if op["f"] == "F2" else [fid[op["f"]]]
+        return dict(op="build", fids=fids, efr=op["efr"], na=op["na"], d=op["d"])
+    if k == "edit":
+        e = op["e"]
+        # the mixins are what collections.abc builds from the primitives the model has (Gen/SpecState.lean:
+        # `formulaMixinMutators`, theorem sequence_protocol_as_modelled): pop(i) = del [i]; remove(t) = del [index(t)];
+        # extend(ts) / += ts = append each; clear() = pop() until the formula is empty
+        if e["k"] == "pop":
+            prim = [dict(k="del", i=-1 if e.get("i") is None else e["i"])]
+        elif e["k"] == "remove":
+            prim = [dict(k="del", i=e["i"])]
+        elif e["k"] == "extend":
+            prim = [dict(k="append", t=_pick_terms(e["t"])), dict(k="append", t=_pick_terms(e["t2"]))]
+        elif e["k"] == "iadd":
+            prim = [dict(k="append", t=_pick_terms(e["t"]))]
+        elif e["k"] == "clear":
+            prim = [dict(k="del", i=-1)] * e["n"]
+        else:
+            prim = [dict(e, t=_pick_terms(e["t"])) if "t" in e else dict(e)]
+        if "h" in op["target"]:
+            return [dict(op="editof", h=op["target"]["h"], e=x) for x in prim]
+        return [dict(op="edit", fid=fid[op["target"]["f"]], e=x) for x in prim]
     u = op.get("u")
     return dict(op="call", hs=op["hs"], u=None if u is None else dict(u), d=op["d"])
+
+
+def _model_groups(c, o):
+    """the model's operations: the creation of the formula objects first, then per real operation one operation or (for a
+    mixin edit) the primitives it is built from; returns (flat list, index of the LAST model operation of every real one)"""
+    F = _formulas(c)
+    names = _fnames(c)
+    fid = {n: i for i, n in enumerate(names)}
+    flat = [dict(op="formula", f=_terms(F[n])) for n in names]
+    ends = []
+    for r in o["ops"]:
+        m = _model_op(r["op"], fid)
+        flat += m if isinstance(m, list) else [m]
+        ends.append(len(flat) - 1)
+    return flat, ends
 
 
 def request(c, o):
     if "ops" not in o:
         return dict(ops=[])
-    F = _formulas()
-    r = dict(o["params"], ops=[_model_op(r["op"], F) for r in o["ops"]])
+    flat, ends = _model_groups(c, o)
+    r = dict(o["params"], ops=flat)
+    # the real code's scoped terms are NOT sent: the model computes rank reduction itself and `agree` compares
+    r["scopedq"] = [dict(origin=e["origin"], efr=e["efr"], d=e["d"]) for e in r.pop("scoped")]
     # the outcome of `_enforce_structure` is a parameter of the model (a function of the part's record):
     # which operation raised FactorEncodingError after how many completed parts
-    r["encfail"] = [[i, x["parts_done"]] for i, x in enumerate(o["ops"]) if "parts_done" in x]
-    if os.environ.get("C18_MODEL_MODE"):  # diagnostic only: "share" = the model of the code before the D16 repair
-        r["mode"] = os.environ["C18_MODEL_MODE"]
+    r["encfail"] = [[ends[i], x["parts_done"]] for i, x in enumerate(o["ops"]) if "parts_done" in x]
     return r
 
 
@@ -911,8 +1483,24 @@ def agree(c, o, m):
     if "ops" not in o:
         return None
     heap, pure = m.get("heap", []), m.get("pure", [])
-    if len(heap) != len(o["ops"]):
-        return f"model ran {len(heap)} ops, implementation {len(o['ops'])}"
+    # rank reduction: the model's scoped terms (order of the scoped terms of a term, order of the factors inside, which
+    # are reduced, scale) vs those recorded in the structure of a fresh real build
+    for q, ans in zip(o["params"]["scoped"], m.get("scoped", [])):
+        if ans != q["terms"]:
+            return (f"rank reduction of formula {q['origin']} (ensure_full_rank={q['efr']}, frame {q['d']}): "
+                    f"implementation {q['terms']} vs model {ans}")
+    if len(m.get("scoped", [])) != len(o["params"]["scoped"]):
+        return "the model answered a different number of rank-reduction queries"
+    flat, ends = _model_groups(c, o)
+    if len(heap) != len(flat):
+        return f"model ran {len(heap)} ops, {len(flat)} were sent"
+    for lo, hi in zip([len(_fnames(c))] + [e + 1 for e in ends], ends):
+        # a mixin edit raises exactly when one of its primitives does (none of the generated ones is expected to, except
+        # the last); the outcome of the real operation is compared with that of its last primitive
+        for t in range(lo, hi):
+            if "err" in heap[t]["out"]:
+                return f"model operation {t} {flat[t]} (an inner step of a mixin edit) raised {heap[t]['out']}"
+    heap, pure = [heap[e] for e in ends], [pure[e] for e in ends]
     records = {}
     for i, (r, hm, pm) in enumerate(zip(o["ops"], heap, pure)):
         if r["out"] != _model_view(hm["out"]):
@@ -922,6 +1510,9 @@ def agree(c, o, m):
                 if a != b:
                     return f"after op {i} {r['op']}: spec #{h} implementation {a} vs model {b}"
             return f"after op {i}: implementation has {len(r['specs'])} specs, model {len(hm['specs'])}"
+        if r["forms"] != hm["forms"]:
+            return (f"after op {i} {r['op']}: the formula objects (terms in order; objects in creation order) are "
+                    f"{r['forms']} in the implementation vs {hm['forms']} in the model")
         if r["op"]["k"] in ("build", "call"):
             for what, rec_, dig in (("history", hm["out"], r["mdigest"]), ("fresh", pm, r["fresh_m"])):
                 key = json.dumps(rec_, sort_keys=True)
@@ -958,19 +1549,28 @@ def classify(c, o, why):
 
 
 LEVEL_TEXT = (
-    "Proof: Lean theorems (Props/C18.lean) about a store model of ModelSpec state (reference cells for transform_state / "
-    "encoder_state, update() sharing, in-place writes of get_model_matrix steps 2-3) show, for ALL histories of "
-    "new/update/subset/build/call operations and all numeric parameters, that every outcome equals the outcome under value "
-    "semantics (a pure function of the named specs' values and the data), that no operation changes the replay behaviour of "
-    "any earlier spec, that repeated calls agree, and that factor evaluation is independent of the iteration order of the "
-    "factor set (hence of the hash seed).  Partial: CPython's real hash function / dict internals and float summation order "
-    "are observed (subprocesses with 4/16 hash seeds, byte-identical canonical outputs), not modelled; immutability of the "
-    "data frames and formulas is observed by hashing, not proved."
+    "Proof: Lean theorems (Props/C18.lean, 31) about a store model of ModelSpec state (reference cells for transform_state / "
+    "encoder_state, update() sharing, in-place writes of get_model_matrix steps 2-3) extended by formula OBJECTS (which "
+    "object every spec holds, the caller's edits through the sequence protocol with Python's index rules and the re-sort "
+    "by degree, state-resetting updates) show, for ALL histories and all numeric parameters: every outcome equals the "
+    "outcome under value semantics (a pure function of the named specs' values and of the contents of the formula objects "
+    "read); no operation other than the caller's own edit changes a formula object, the value of an earlier spec or the "
+    "outcome of any later operation on earlier objects; an operation that raises -- at any point -- changes nothing, so "
+    "any reuse after a fault gives what it would have given without it; an edit reaches exactly the specs that hold the "
+    "object and only their formula; repeated calls agree; the aliasing bookkeeping is consistent.  Rank reduction is inside "
+    "the model (the code of _get_scoped_terms / _simplify_scoped_terms with the iteration order of every plain set as a "
+    "parameter) and proved total and independent of those orders, as factor evaluation is of the order of the factor set "
+    "-- hence column order, values and dropped rows do not depend on the hash seed; a variant that hands a plain set to "
+    "the recursion is proved seed-dependent on `a:b:c` (why the seed batches contain such shapes).  The layout of state "
+    "the model assumes is compared with tables regenerated from the live package.  Partial: CPython's real hash function / "
+    "dict internals and float summation order are observed (subprocesses with 6/16 hash seeds, byte-identical canonical "
+    "outputs), not modelled; immutability of the data frames is observed by hashing, not proved."
 )
 LEVEL_NOTE = (
-    "Trusted: Lean kernel + propext/Quot.sound/Classical.choice; the hand model of model_spec.py / materializers/base.py "
-    "state handling validated by correspondence (outcomes, dictionary identity classes and contents after every operation); "
-    "numerics enter as parameters computed by isolated fresh evaluations."
+    "Trusted: Lean kernel + propext/Quot.sound/Classical.choice; the hand model of model_spec.py / materializers/base.py / "
+    "formula.py (SimpleFormula as a mutable sequence) state handling validated by correspondence (outcomes, dictionary and "
+    "formula identity classes and contents after every operation, scoped terms of fresh builds); numerics enter as "
+    "parameters computed by isolated fresh evaluations."
 )
 
 if __name__ == "__main__":
